@@ -34,6 +34,9 @@ type cliWorld struct {
 	writeData   []string
 	reads       []string
 	removed     []string
+	files       map[string]string // modelled file system: output path -> content ("" + absent flag below)
+	present     map[string]bool
+	handles     map[*os.File]string
 	generateCalled int
 	tagsSeen    string
 	prefixSeen  string
@@ -93,18 +96,83 @@ func setupCLI(maxPkgs int) *cliWorld {
 		}
 		return nil, errors.New("no such file")
 	})
+	w.files = map[string]string{}
+	w.present = map[string]bool{}
+	w.handles = map[*os.File]string{}
+	fails := func(name string) bool {
+		for i := 0; i < w.n; i++ {
+			if name == outPath(i, w.prefixSeen) && vConcBool(w.commitFails[i]) {
+				return true
+			}
+		}
+		return false
+	}
+	// the prior content of an output path is materialised on first touch
+	touch := func(name string) {
+		if _, seen := w.files[name]; seen {
+			return
+		}
+		w.files[name] = ""
+		for i := 0; i < w.n; i++ {
+			if name == outPath(i, w.prefixSeen) {
+				switch vConc(w.fileState[i]) {
+				case 1:
+					w.files[name], w.present[name] = newContent(i), true
+				case 2:
+					w.files[name], w.present[name] = "// stale or hand-damaged content\n", true
+				}
+			}
+		}
+	}
 	writeFile := func(name string, data []byte, perm os.FileMode) error {
 		w.writes = append(w.writes, name)
 		w.writeData = append(w.writeData, string(data))
-		for i := 0; i < w.n; i++ {
-			if name == outPath(i, w.prefixSeen) && w.commitFails[i] {
-				return errors.New("write failed")
-			}
+		if fails(name) {
+			return errors.New("write failed")
 		}
+		touch(name)
+		w.files[name], w.present[name] = string(data), true
 		return nil
 	}
 	vStub("io/ioutil.WriteFile", writeFile)
 	vStub("os.WriteFile", writeFile)
+	openFile := func(name string, flag int, perm os.FileMode) (*os.File, error) {
+		if flag&(os.O_WRONLY|os.O_RDWR) != 0 {
+			w.writes = append(w.writes, name)
+			w.writeData = append(w.writeData, "")
+		}
+		if fails(name) {
+			return nil, errors.New("open failed")
+		}
+		touch(name)
+		if flag&os.O_CREATE == 0 && !w.present[name] {
+			return nil, errors.New("no such file")
+		}
+		if flag&(os.O_WRONLY|os.O_RDWR) != 0 {
+			w.present[name] = true
+			if flag&os.O_TRUNC != 0 {
+				w.files[name] = ""
+			}
+		}
+		f := new(os.File)
+		w.handles[f] = name
+		return f, nil
+	}
+	vStub("os.OpenFile", openFile)
+	vStub("os.Create", func(name string) (*os.File, error) { return openFile(name, os.O_RDWR|os.O_CREATE|os.O_TRUNC, 0666) })
+	fwrite := func(f *os.File, b []byte) (int, error) {
+		name := w.handles[f]
+		// a file opened without O_APPEND is written from offset 0 on: the model only supports whole-file writes after truncation and appends
+		w.files[name] += string(b)
+		if len(w.writeData) > 0 {
+			w.writeData[len(w.writeData)-1] += string(b)
+		}
+		return len(b), nil
+	}
+	vStub("(*os.File).Write", fwrite)
+	vStub("(*os.File).WriteString", func(f *os.File, s string) (int, error) { return fwrite(f, []byte(s)) })
+	vStub("(*os.File).Close", func(f *os.File) error { return nil })
+	vStub("(*os.File).Sync", func(f *os.File) error { return nil })
 	vStub("os.Remove", func(name string) error { w.removed = append(w.removed, name); return nil })
 	vStub("os.Rename", func(a, b string) error { w.removed = append(w.removed, a); return nil })
 	vStub("github.com/google/wire/internal/wire.Generate", func(ctx context.Context, wd string, env []string, patterns []string, opts *wire.GenerateOptions) ([]wire.GenerateResult, []error) {
@@ -181,6 +249,20 @@ func H_cli_gen() {
 			vA("C18", w.writeData[k] == newContent(i), "the file written is exactly the generated content, whatever was there before")
 			k++
 		}
+	}
+	// post-state of the modelled file system (independent of how Commit writes)
+	for i := 0; i < w.n; i++ {
+		path := outPath(i, cmd.prefixFileName)
+		if reached && vConcBool(w.hasContent[i]) && !vConcBool(w.commitFails[i]) {
+			vA("C18,C17", w.present[path] && w.files[path] == newContent(i), "after gen the output file holds exactly the generated content, whatever it held before")
+		}
+	}
+	for path := range w.files {
+		known := false
+		for i := 0; i < w.n; i++ {
+			known = known || path == outPath(i, cmd.prefixFileName)
+		}
+		vA("C17", known, "gen touches no file other than <prefix>wire_gen.go of the processed packages")
 	}
 	vA("C17", len(w.removed) == 0, "gen removes or renames nothing")
 	for _, r := range w.reads {
